@@ -466,6 +466,76 @@ Section Composition.
   Qed.
 End Composition.
 
+Definition ex_interp : interp :=
+  mkInterp 0 (fun _ _ _ _ => None) (fun k id => Some (N.eqb k id)).
+
+(* ------------------------------------------------------------------ *)
+(* per-query registration: the bound table's schema (known finding)      *)
+(* ------------------------------------------------------------------ *)
+Lemma tskind_eqb_eq a b : tskind_eqb a b = true <-> a = b.
+Proof. destruct a, b; cbn; intuition congruence. Qed.
+
+(* Outside the known class the statement is type-checked against the schema of
+   the ingested data, exactly as the full scan is. *)
+Lemma run_query_schema st data sel :
+  known_empty_selection_schema st data sel = false -> qn_schema (register st data sel) = data.
+Proof.
+  destruct sel as [|p sel]; cbn [known_empty_selection_schema register qn_schema]; [|reflexivity].
+  intros H. apply negb_false_iff in H. apply tskind_eqb_eq in H. exact H.
+Qed.
+
+(* C04_modulo_known: whatever was bound before, unless (no chunk selected and
+   bound schema <> data schema) the outcome of the pipeline (answer or
+   type-check error) is the outcome of the full scan. *)
+Theorem run_query_eq_full_scan_modulo_known
+  (I : interp) (content : path -> list row) (prune : list cpred -> path -> bool)
+  (answer : Type) (engine : list pred -> list row -> answer) (post : list row -> answer)
+  (h : list cop) (typechecks : tskind -> bool) (st : qnode) (data : tskind) (now : Z) (fs : list pred) :
+  hist_ok h ->
+  (forall p m r, In (p, m) (spec_run h) -> In r (content p) ->
+     m_min m <= r_ts r <= m_max m /\ in_i64 (r_ts r) = true) ->
+  (forall cs p r, In r (content p) -> (forall c, In c cs -> csem I c r = Some true) -> prune cs p = true) ->
+  (forall fs rows, engine fs rows = post (filter (sat_all I fs) rows)) ->
+  (forall rows rows', Permutation rows rows' -> post rows = post rows') ->
+  finite_window I fs ->
+  (exists sel, select_chunks (s3_get (s3_run h)) prune now fs = Done sel /\
+     (known_empty_selection_schema st data sel = false ->
+      snd (run_query typechecks (engine fs) content st data sel)
+      = full_scan typechecks (engine fs) content data (live_paths h))) /\
+  (exists sel, select_chunks (local_get (local_run h)) no_gate now fs = Done sel /\
+     (known_empty_selection_schema st data sel = false ->
+      snd (run_query typechecks (engine fs) content st data sel)
+      = full_scan typechecks (engine fs) content data (live_paths h))).
+Proof.
+  intros Hk Hc Hp Heng Hpost Hw.
+  destruct (answer_eq_full_scan I content prune answer engine post h Hk Hc Hp Heng Hpost now fs Hw)
+    as [[sel1 [S1 E1]] [sel2 [S2 E2]]].
+  split; [exists sel1|exists sel2]; (split; [assumption|]); intros Hn;
+    unfold run_query, full_scan; cbn [snd]; rewrite (run_query_schema _ _ _ Hn);
+    destruct (typechecks data); try reflexivity; f_equal; assumption.
+Qed.
+
+(* C04_refuted: a fresh node (default schema: Timestamp(ns)), Int64 data, a
+   window that matches no chunk, a statement comparing the timestamp with
+   integer literals: the full scan answers (an empty selection), the pipeline
+   fails in the type check.  Observed on the real code:
+   SELECT * FROM metrics WHERE timestamp <= -1800000000000 AND timestamp >= 3600000000001
+   on a fresh QueryNode over Int64 chunks -> "DataFusion error: type_coercion". *)
+Definition refut_h : list cop := [ORegister 1%N (mkMeta 0 10 2%N 1%N)].
+Definition refut_content : path -> list row := fun p => if N.eqb p 1 then [mkRow 0 0; mkRow 1 10] else [].
+Definition refut_fs : list pred := [PAnd (PCmp OLe (LInt (-5))) (PCmp OGe (LInt 20))].
+Definition refut_typechecks : tskind -> bool := fun k => tskind_eqb k KInt64.
+(* SELECT count( * ) ... : selection by the filters, then the number of rows *)
+Definition refut_exec : list row -> nat := fun rows => length (filter (sat_all ex_interp refut_fs) rows).
+
+Theorem refuted_empty_selection_schema :
+  exists sel,
+    select_chunks (local_get (local_run refut_h)) no_gate 0 refut_fs = Done sel /\
+    known_empty_selection_schema qnode_fresh KInt64 sel = true /\
+    snd (run_query refut_typechecks refut_exec refut_content qnode_fresh KInt64 sel) = Failed 1%N /\
+    full_scan refut_typechecks refut_exec refut_content KInt64 (live_paths refut_h) = Done 0%nat.
+Proof. exists []. vm_compute. auto. Qed.
+
 (* ------------------------------------------------------------------ *)
 (* the answer does not depend on how the rows were split into chunks    *)
 (* ------------------------------------------------------------------ *)
@@ -543,9 +613,6 @@ Example witness_timestamp_literals :
   extract [PBetween false (LTs USec 2) (LTs UMilli 3000)] = TRange 2000000000 3000000000 /\
   extract [PCmp OGe (LTs USec 9223372037)] = TRange i64_min i64_max.
 Proof. vm_compute. auto. Qed.
-
-Definition ex_interp : interp :=
-  mkInterp 0 (fun _ _ _ _ => None) (fun k id => Some (N.eqb k id)).
 
 (* pruning_sound is not vacuous: a row satisfying a nested OR/AND/NOT clause *)
 Example pruning_sound_nonvacuous :
